@@ -1,4 +1,4 @@
-prop("C19", files={"root": ["vf_c19_sched_test.go", "vf_c19_access_test.go"],
-                   "fclient": ["vf_c19_sched_test.go", "vf_c19_dns_test.go"]},
+prop("C19", files={"root": ["vf_c19_sched_test.go", "vf_c19_access_test.go", "vf_c19_keys_test.go"],
+                   "fclient": ["vf_c19_sched_test.go", "vf_c19_dns_test.go", "vf_c19_transport_test.go"]},
      race=True,
      assumptions=["TODO"])
